@@ -21,7 +21,8 @@ from mc.core import Result
 ID = "C18"
 TECHNIQUE = ("exhaustive enumeration: spectra (multisets over a 5-letter alphabet incl. exact and near degeneracy) x Givens frames x "
              "symmetric basis tangents for _eigh's jvp vs perturbation theory; systems x all orbital-rotation words of length <= 2 x "
-             "n_opt_iter for rhf/uhf.optimize vs pyscf as independent SCF solver")
+             "n_opt_iter for rhf/uhf.optimize vs pyscf as independent SCF solver; UHF sectors with n_up > n_dn, n_up = n_dn and "
+             "n_dn > n_up, the latter with a spin-flip differential oracle")
 
 LAMBDA = [0.0, 1.0, 1.0 + 1e-7, 1.0 + 1e-3, 2.0]
 DEG_REL = 1e-5          # the property's "non-degenerate": all gaps > 1e-5 * scale
@@ -199,8 +200,16 @@ _GEOM = {
 BOND_SCALE = [1.0, 0.9, 1.15, 1.3]
 
 
+def flip_problem(prob):
+    """The same physics with the two spin labels exchanged."""
+    return dict(prob, na=prob["nb"], nb=prob["na"], h1=np.array([prob["h1"][1], prob["h1"][0]]))
+
+
 def build_problem(sysd):
-    """-> dict(n, na, nb, h0, h1[2,n,n], chol[g,n,n]) in an orthonormal basis."""
+    """-> dict(n, na, nb, h0, h1[2,n,n], chol[g,n,n]) in an orthonormal basis.  sysd['flip'] exchanges the spin
+    labels of the system described by the other keys (sectors with n_dn > n_up)."""
+    if sysd.get("flip"):
+        return flip_problem(build_problem({k: v for k, v in sysd.items() if k != "flip"}))
     if sysd["type"] == "synth":
         n, na, nb, seed = sysd["n"], sysd["na"], sysd["nb"], sysd["seed"]
         Q = al.frame(n, seed, 5)
@@ -413,7 +422,11 @@ def opt_check(sysd, uhf, seed, res, only=None, thorough=False):
     n, na, nb = prob["n"], prob["na"], prob["nb"]
     kind = "uhf" if uhf else "rhf"
     base = dict(part="opt", kind=kind, system=sysd, seed=seed, tier="thorough" if thorough else "quick")
-    conv, e_ref, C, E = pyscf_reference(prob, uhf)
+    if sysd.get("flip"):  # reference solved in the n_up >= n_dn labelling, then relabelled (exact symmetry of the problem)
+        conv, e_ref, C, E = pyscf_reference(flip_problem(prob), uhf)
+        C, E = [C[1], C[0]], [E[1], E[0]]
+    else:
+        conv, e_ref, C, E = pyscf_reference(prob, uhf)
     ne = [na, nb]
     Pref = [C[s][:, :ne[s]] @ C[s][:, :ne[s]].T for s in (0, 1)]
     if abs(hf_energy(prob, Pref[0], Pref[1]) - e_ref) > 1e-9 * max(1, abs(e_ref)):
@@ -430,6 +443,8 @@ def opt_check(sysd, uhf, seed, res, only=None, thorough=False):
     judged_energy = rho <= RHO_ENERGY and gap >= GAP_MIN
     judged_fixed = rho <= RHO_FIXED and gap >= GAP_MIN
     res.guard("systems_%s" % kind)
+    if uhf and nb > na:
+        res.guard("systems_uhf_n_dn>n_up")
     res.guard("systems_energy_judged" if judged_energy else "systems_ill_conditioned_energy_not_judged")
     if not judged_fixed:
         res.guard("systems_ill_conditioned_fixed_point_not_judged")
@@ -453,10 +468,31 @@ def opt_check(sysd, uhf, seed, res, only=None, thorough=False):
             Cbs = np.array([c[1][:, :nb] for c in Cw])
             oa, ob = rig.run_batch(Cas, Cbs)
             res.add(states=len(sel), transitions=len(sel), evaluations=len(sel), traces=len(sel))
+            mirror = None
+            if uhf and sysd.get("flip") and n_it == 30:
+                # spin-flip differential oracle: the library on the relabelled problem (spins, one-body matrices,
+                # electron counts and initial orbitals all exchanged) must return the mirror image
+                rig0 = OptRig(flip_problem(prob), True, n_it)
+                ma, mb = rig0.run_batch(Cbs, Cas)
+                mirror = (mb, ma)
+                res.add(transitions=len(sel), evaluations=len(sel), traces=len(sel))
             for t, k in enumerate(sel):
                 word = wl[k]
                 case = dict(base, n_opt_iter=n_it, word=k, word_letters=[list(l) for l in word], what="word")
                 outs = [oa[t], ob[t]]
+                if mirror is not None:
+                    res.guard("spin_flip_cases")
+                    mo = [mirror[0][t], mirror[1][t]]
+                    e_a = e_b = None
+                    okm = all(np.all(np.isfinite(mo[s])) and mo[s].shape == outs[s].shape for s in (0, 1)) and \
+                        all(np.all(np.isfinite(outs[s])) for s in (0, 1))
+                    if okm:
+                        e_a = hf_energy(prob, outs[0] @ outs[0].T, outs[1] @ outs[1].T)
+                        e_b = hf_energy(prob, mo[0] @ mo[0].T, mo[1] @ mo[1].T)
+                        okm = (not judged_fixed) or abs(e_a - e_b) <= ENERGY_TOL * scale_e
+                    if not okm:
+                        res.violation("uhf.optimize:spin-flip-asymmetry(n_dn>n_up vs n_up>n_dn)", dict(case, what="flip"),
+                                      dict(nelec=[na, nb], e_this=e_a, e_mirror=e_b, rho=rho))
                 bad_orth = False
                 for s in (0, 1):
                     o = outs[s]
@@ -572,10 +608,14 @@ def systems(tier, seed):
            M("H2/sto-3g", scale=sc), M("H2/6-31g", scale=sc), M("H4chain/sto-3g", scale=sc), M("LiH/sto-3g", scale=sc)]
     uhf = [S(3, 1, 1), S(3, 2, 1), S(4, 2, 1), S(4, 2, 2, spin_dep=True), S(3, 2, 0), S(4, 2, 2, flavour="deg-occ"),
            M("H2/sto-3g", scale=sc), M("H3chain/sto-3g", spin=1, scale=sc), M("LiH/sto-3g", scale=sc), M("OH/sto-3g", spin=1, scale=sc)]
+    # sectors with n_dn > n_up (the spin labels of an n_up > n_dn system exchanged) + the spin-flip differential oracle
+    uhf += [S(3, 2, 1, flip=True), S(4, 2, 1, spin_dep=True, flip=True), S(3, 2, 0, flip=True), M("H3chain/sto-3g", spin=1, scale=sc, flip=True)]
     if thorough:
         rhf += [S(5, 2, 2), S(5, 3, 3), S(5, 1, 1), S(4, 3, 3), M("H4chain/6-31g"), M("H2O/sto-3g"), M("H4ring/sto-3g"), M("LiH/6-31g")]
         uhf += [S(5, 3, 2), S(5, 3, 1), S(4, 3, 1), S(5, 2, 2), S(4, 3, 3, flavour="deg-virt"), M("H4chain/sto-3g"), M("H2O/sto-3g"),
                 M("H4chain/sto-3g", spin=2), M("H2/6-31g"), M("H4ring/sto-3g")]
+        uhf += [S(5, 3, 2, flip=True), S(5, 3, 1, flip=True), S(4, 3, 1, spin_dep=True, flip=True), S(4, 4, 2, flip=True),
+                M("OH/sto-3g", spin=1, flip=True), M("H4chain/sto-3g", spin=2, flip=True)]
         for s in BOND_SCALE:
             if s != sc:
                 rhf += [M("H2/sto-3g", scale=s), M("H4chain/sto-3g", scale=s), M("LiH/sto-3g", scale=s)]
@@ -596,7 +636,7 @@ def job(cfg):
 def run(ctx):
     ctx.rule = ("_eigh: every multiset of size n <= 4 (5 thorough) over {0,1,1+1e-7,1+1e-3,2} as spectrum x 5 Givens frames x every symmetric basis "
                 "tangent; optimize: systems (synthetic gapped / degenerate one-body-limit Hamiltonians, molecules in the Loewdin basis; "
-                "closed and open shells; rhf and uhf) x n_opt_iter {5,30} x every word of length <= 2 (3 in the thorough tier for systems with <= 8 letters) over "
+                "closed and open shells incl. n_dn > n_up (every layer; plus library(problem) vs library(spin-relabelled problem)); rhf and uhf) x n_opt_iter {5,30} x every word of length <= 2 (3 in the thorough tier for systems with <= 8 letters) over "
                 "Givens(occ,virt,theta in {0.05,0.3}) applied to the pyscf-converged orbitals (empty word = converged input) + 4 malformed guesses x jvp along every "
                 "symmetric one-body tangent; a state is one (system, n_opt_iter, initial orbitals | tangent); non-trivial & distinct = "
                 "distinct spectra / distinct energies of the initial determinants")
@@ -612,7 +652,7 @@ def run(ctx):
     ctx.pmap(job, jobs)
     ctx.require_guard("eigh_jvp_cases_nondegenerate", "eigh_jvp_exactly_degenerate_finite", "eigh_jvp_near_degenerate_finite",
                       "eigh_jvp_compared_small_gap(1e-3)", "systems_rhf", "systems_uhf", "systems_energy_judged", "fixed_point_cases",
-                      "energy_cases", "energy_cases_strongly_perturbed", "malformed_guess_cases", "optimize_jvp_cases",
+                      "energy_cases", "energy_cases_strongly_perturbed", "malformed_guess_cases", "spin_flip_cases", "systems_uhf_n_dn>n_up", "optimize_jvp_cases",
                       "optimize_jvp_projector_compared", "optimize_jvp_finite_only")
 
 
